@@ -20,9 +20,11 @@ sys.path.insert(0, os.path.join(HERE, "selftest"))
 from run import make_copy, keys_of, baseline  # noqa: E402
 
 
-def run_one(d: str, tier: str = "quick") -> dict:
+def run_one(d: str, tier: str = "quick", only=None) -> dict:
     meta = json.load(open(os.path.join(d, "meta.json")))
     props = meta.get("check_properties") or [meta["property"]]
+    if only:
+        props = [p for p in props if p in only]
     root = tempfile.mkdtemp(prefix="pqstatic-seeded-")
     os.rmdir(root)
     out = {"id": os.path.basename(d), "property": meta["property"], "results": {}}
